@@ -1262,6 +1262,8 @@ func runC16(args []string) error {
 		"js":   g.jsCases(200 * s),
 		"b64":  g.b64Cases(150 * s),
 		"jw":   g.jwCases(200*s, *big),
+		"ctx":  g.ctxCases(40 * s),
+		"cc":   g.ccCases(200 * s),
 		"dist": g.dist,
 		"keys": map[string]string{"error": hx(requestreply.ErrorMetadataKey), "has_error": hx(requestreply.HasErrorMetadataKey)},
 	}
